@@ -2,6 +2,7 @@ package props
 
 import (
 	"go/ast"
+	"go/token"
 	"go/types"
 	"sync"
 
@@ -180,4 +181,46 @@ func txVarOfBegin(f *kit.Func, begin *ast.CallExpr) types.Object {
 		return nil
 	}
 	return kit.ObjOf(f.Info(), as.Lhs[idx])
+}
+
+// holdsTx: e is a struct value (T{…}, &T{…}, or a local defined once as one) with a
+// field holding the transaction — a small type wrapping the transaction
+// (`&writeTx{Tx: tx, …}`).
+func holdsTx(f *kit.Func, e ast.Expr, txVar types.Object, depth int) bool {
+	info := f.Info()
+	e = ast.Unparen(e)
+	if u, ok := e.(*ast.UnaryExpr); ok && u.Op == token.AND {
+		e = ast.Unparen(u.X)
+	}
+	if cl, ok := e.(*ast.CompositeLit); ok {
+		for _, el := range cl.Elts {
+			v := el
+			if kv, ok := el.(*ast.KeyValueExpr); ok {
+				v = kv.Value
+			}
+			if kit.ObjOf(info, v) == txVar {
+				return true
+			}
+		}
+		return false
+	}
+	if o := kit.ObjOf(info, e); o != nil && depth < 2 {
+		var def ast.Expr
+		n := 0
+		ast.Inspect(f.Body, func(x ast.Node) bool {
+			if as, ok := x.(*ast.AssignStmt); ok && len(as.Lhs) == len(as.Rhs) {
+				for i, l := range as.Lhs {
+					if kit.ObjOf(info, l) == o {
+						n++
+						def = as.Rhs[i]
+					}
+				}
+			}
+			return true
+		})
+		if n == 1 && def != nil {
+			return holdsTx(f, def, txVar, depth+1)
+		}
+	}
+	return false
 }
